@@ -490,6 +490,41 @@ def r7(ctx, sc):
         else: rep.ok('C10.R7', '%s yy_get_next_buffer: %d input call(s), all behind status != EOF_PENDING' % (v.name, len(reads)))
     return n
 
+def r8(ctx, sc):
+    """R8: a new input source is adopted, not overwritten.  In yylex, on the edge where the current buffer is found NEW
+    (the caller may just have pointed yyin at another source), the buffer's yy_input_file is assigned from yyin; and
+    yylex never assigns yyin from the buffer (that is yy_load_buffer_state's job after a buffer switch): reversing the copy
+    makes the finished source overwrite the new one, and the whole new input is skipped.  C back ends (the C++ class keeps
+    a stream object, checked separately by the same shape on rdbuf)."""
+    rep = ctx.rep; v = sc.v
+    f = big_yylex(sc)
+    if f is None or v.backend == 'cxx': return 0
+    NEW, _ = status_constants(sc)
+    res = ir.Resolver(f); c0 = sc.prog.cfg(f, cut=False)
+    adopt = []; clobber = []
+    for x in f.ins:
+        if x.op != 'store': continue
+        l = res.loc(x.ops[1])
+        d = f.def_of(S.strip_ext(f, x.ops[0])) if x.ops[0][0] == 'reg' else None
+        src = res.loc(d.ops[0]) if d is not None and d.op == 'load' else None
+        if sc.is_buf(l, 'yy_input_file') and sc.via_current(l) and src is not None and sc.is_var(src, 'yyin'): adopt.append(x)
+        if sc.is_var(l, 'yyin') and src is not None and sc.is_buf(src, 'yy_input_file'): clobber.append(x)
+    key = sc.key('C10.R8', 'yylex', 'new-source')
+    def under_new(x):
+        for br, t in c0.control_deps_closure(x.blk):
+            con = S.edge_constraint(f, br, t.name)
+            if con is None or con[0] != 'eq' or con[2] != ('int', NEW): continue
+            d = f.def_of(S.strip_ext(f, con[1]))
+            if d is not None and d.op == 'load' and sc.is_buf(res.loc(d.ops[0]), 'yy_buffer_status'): return True
+        return False
+    if clobber:
+        rep.fail('C10.R8', key + ':yyin-overwritten', where(clobber[0]), 'yylex assigns yyin from the current buffer\'s yy_input_file: a source the caller has just pointed yyin at is replaced by the finished one and never read [variant %s]' % v.name, variant=v.describe())
+    elif not [x for x in adopt if under_new(x)]:
+        rep.fail('C10.R8', key + ':not-adopted', fwhere(f), 'yylex does not copy yyin into the current buffer when it finds the buffer NEW: input re-pointed by the caller is ignored [variant %s]' % v.name, variant=v.describe())
+    else:
+        rep.ok('C10.R8', '%s yylex: current->yy_input_file = yyin under status == NEW; yyin is never assigned from the buffer' % v.name)
+    return 1
+
 # ---------------------------------------------------------------- driver
 
 def run(ctx):
@@ -506,10 +541,12 @@ def run(ctx):
         r4(ctx, sc)
         r5(ctx, sc)
         r7(ctx, sc)
+        r8(ctx, sc)
     rep.setcount('variants_analysed', len(vs))
     rep.setcount('variants_with_several_start_conditions', multi)
     rep.setcount('generator_obligations_R3', g3)
     rep.floor('C10.R1', 200, 'yylex and yyinput in >=100 variants')
+    rep.floor('C10.R8', 90, 'yylex of every C variant')
     rep.floor('C10.R3', 351, '5 generator obligations + 4 EOF arms in each of >=80 multi-condition variants + 1 in the others')
     rep.floor('C10.R4', 200, 'yy_init_buffer and yyrestart in every variant')
     rep.floor('C10.R7', 500, 'the status stores of yylex, yy_get_next_buffer, yy_flush_buffer, yy_scan_buffer and the reader obligation in >=100 variants')
